@@ -26,10 +26,11 @@ Definition dead_pp (p : ppc) : bool :=
 Definition inv_phase (s : bc) : Prop :=
   (ph s = Connecting ->
      pre_pp (pp s) = true /\ dp s = DOff /\ ap s = AOff /\ will s = None /\ (lp s = LNone \/ lp s = LEnd))
-  /\ (early_pp (pp s) = true -> ph s = Connecting).
+  /\ (early_pp (pp s) = true -> ph s = Connecting)
+  /\ (forall c, pp s = PSetup c -> ph s = Connected).
 
 Lemma inv_phase_init : inv_phase bc_init.
-Proof. unfold inv_phase; cbn. split; [intros _; repeat split; auto|discriminate]. Qed.
+Proof. unfold inv_phase; cbn. split; [intros _; repeat split; auto|split; [discriminate|intros c; discriminate]]. Qed.
 
 Ltac unfold_proc H :=
   unfold step_proc, proc_dispatch, die_p, guard, clo_reg, take_sub, take_pub, take_deq_if_any, take_deq in H.
@@ -38,28 +39,29 @@ Lemma inv_phase_step s e s' : inv_phase s -> step s e = Some s' -> inv_phase s'.
 Proof.
   apply sweep; clear s e s'.
   - intros s p d a c H. exact H.
-  - intros s _ _. unfold inv_phase; sf. split; [intros _; repeat split; auto|reflexivity].
+  - intros s _ _. unfold inv_phase; sf. split; [intros _; repeat split; auto|split; [reflexivity|intros c; discriminate]].
   - intros s H. exact H.
   - intros s e s' H Hc. destruct (step_clo_shape _ _ _ Hc) as (se & cl & dy & q & ->). exact H.
-  - intros s e s' [H1 H2] Hp. unfold inv_phase. unfold_proc Hp.
+  - intros s e s' (H1 & H2 & H3) Hp. unfold inv_phase. unfold_proc Hp.
     destruct (pp s) eqn:Epp; destruct e; try discriminate Hp; bm Hp; inv_some Hp; sf;
-      (split; [intros Hc; try discriminate Hc | intros He; try discriminate He]);
+      (split; [intros Hc; try discriminate Hc | split; [intros He; try discriminate He|intros c0 He; try discriminate He]]);
       cbn [early_pp pre_pp] in *;
       try (specialize (H2 eq_refl));
       try (destruct (H1 Hc) as (Hx & ? & ? & ? & ?); try discriminate Hx);
       try (repeat split; solve [assumption | reflexivity]);
-      try congruence.
-  - intros s e s' [H1 H2] Hd. destruct (step_deq_shape _ _ _ Hd) as (se & d & dy & t1 & t2 & t3 & ->).
-    unfold inv_phase; sf. split; [intros Hc|exact H2].
+      try congruence;
+      try (eapply H3; reflexivity).
+  - intros s e s' (H1 & H2 & H3) Hd. destruct (step_deq_shape _ _ _ Hd) as (se & d & dy & t1 & t2 & t3 & ->).
+    unfold inv_phase; sf. split; [intros Hc|split; [exact H2|exact H3]].
     destruct (H1 Hc) as (_ & Hx & _). unfold step_deq in Hd. rewrite Hx in Hd. discriminate Hd.
-  - intros s e s' [H1 H2] Ha. destruct (step_ack_shape _ _ _ Ha) as (a & dy & t1 & t2 & t3 & q & ->).
-    unfold inv_phase; sf. split; [intros Hc|exact H2].
+  - intros s e s' (H1 & H2 & H3) Ha. destruct (step_ack_shape _ _ _ Ha) as (a & dy & t1 & t2 & t3 & q & ->).
+    unfold inv_phase; sf. split; [intros Hc|split; [exact H2|exact H3]].
     destruct (H1 Hc) as (_ & _ & Hx & _). unfold step_ack in Ha. rewrite Hx in Ha. discriminate Ha.
-  - intros s e s' [H1 H2] Hl. destruct (step_cleanup_shape _ _ _ Hl) as (p & d & a & l & -> & Hsh).
+  - intros s e s' (H1 & H2 & H3) Hl. destruct (step_cleanup_shape _ _ _ Hl) as (p & d & a & l & -> & Hsh).
     unfold inv_phase; sf. destruct Hsh as [(-> & -> & -> & Hn)|(Hn & Hst & -> & -> & ->)].
-    + split; [intros Hc|exact H2]. destruct (H1 Hc) as (? & ? & ? & ? & [Hx|Hx]); [contradiction|].
+    + split; [intros Hc|split; [exact H2|exact H3]]. destruct (H1 Hc) as (? & ? & ? & ? & [Hx|Hx]); [contradiction|].
       unfold step_cleanup in Hl. rewrite Hx in Hl. discriminate Hl.
-    + split; [intros Hc|discriminate]. destruct (H1 Hc) as (? & Hd & Ha & ? & _).
+    + split; [intros Hc|split; [discriminate|intros c; discriminate]]. destruct (H1 Hc) as (? & Hd & Ha & ? & _).
       rewrite Hd, Ha. repeat split; auto.
       unfold step_cleanup in Hl. rewrite Hn, Hst, Hc in Hl. cbn in Hl.
       destruct e; try discriminate Hl; bm Hl; inv_some Hl; sf; auto.
